@@ -269,6 +269,10 @@ def op_scenario(ctx):
     fee_rate = a.pool.fee_rate
     if op == "add_by_tick":
         keys = _setup_position(ctx, a, b, sl, "add_liquidity_by_tick", rich=not p.get("poor"))
+        if keys is None and p.get("poor") and ctx.outcomes and ctx.outcomes[-1].endswith("rej/rej"):
+            # rejected in both orientations: whatever was taken before the rejection is handed back in
+            # BOTH token orders -- the wallets still agree, and equal what they were
+            _compare_wallets(ctx, a, b, "add_liquidity_by_tick [rejected]", sl)
         if keys:
             _compare_wallets(ctx, a, b, "add_liquidity_by_tick", sl)
             _compare_balance(ctx, a, b, "add_liquidity_by_tick", sl)
@@ -468,7 +472,7 @@ def scenarios(tier):
                     for rg in ("edge_low", "edge_high"):
                         for op in ("estimate_liquidity", "estimate_amount"):
                             out.append(Scenario(f"{op}/{rg}/half_tick_inside_the_bound/t200010/q{dq}b{db}", op_scenario, params=dict(tick=200010, dq=dq, db=db, fee=fee, op=op, range=rg, half_tick=True), entry=(f"UniLpMarket.{op}",), **kw))
-                if tier != "quick" or (dq, db) == (18, 6):
+                if True:  # both decimal orders in every tier: with (18, 6) the pool price is tiny and so is what a botched roll-back loses
                   out.append(Scenario(f"add_by_tick_poor_wallet/inside/{tag}", op_scenario, params=dict(base, op="add_by_tick", range="inside", poor=True), entry=("UniLpMarket.add_liquidity_by_tick", "Asset.sub"), **kw))
                 for op in ("buy", "sell", "even_rebalance"):
                     out.append(Scenario(f"{op}/{tag}", op_scenario, params=dict(base, op=op, range="inside"), entry=(f"UniLpMarket.{op}",), **kw))
